@@ -1,25 +1,36 @@
-/* Exact (integer) oracle for the piecewise-linear model: bands, lines through two constraint points, feasibility.
- * All quantities are tiny (8-bit x, ranks <= ~16, eps <= 2: every product below 2^13), so 32-bit arithmetic is exact.
- * Products are computed modulo 2^32 on unsigned operands and read back as signed: identical to the signed product when it
- * fits (it does, see OR_RANGE asserted by the harness), and it spares the solver the double-width overflow-check multipliers. */
+/* Exact integer oracle for the piecewise-linear model: bands, lines through two constraint points, feasibility.
+ * Independent of the builder's hull logic.  Quantities are tiny: ranks (and band values) <= 31, key differences <= 255.
+ * Every product is written as (rank-like value, masked to 5 bits) x (non-negative key difference, masked to 8 bits), so the
+ * bit-blasted multiplier has 5 partial products; OR_RANGE (asserted by the harnesses) states the ranges that make the masks
+ * value-preserving. */
 #ifndef PLA_ORACLE_H
 #define PLA_ORACLE_H
 typedef int i64;
-#define OR_MUL(a, b) ((int) ((unsigned) (a) * (unsigned) (b)))
-#define OR_ADD(a, b) ((int) ((unsigned) (a) + (unsigned) (b)))
+#define OR_RANK_MAX 31
+#define OR_MUL(r, d) ((unsigned) ((unsigned) (r) & 31u) * ((unsigned) (d) & 255u))
 static i64 band_lo(i64 y, i64 eps) { return y <= eps ? 0 : y - eps; }   /* lower band, clamped at rank 0 (Y = size_t) */
 static i64 band_hi(i64 y, i64 eps) { return y + eps; }
-/* does the line through (px,py)-(qx,qy), px != qx, pass through [band_lo, band_hi] at (x, y)? */
+/* Line through P=(px,py), Q=(qx,qy) with px < qx and 0 <= py,qy <= 31.  Is lo <= L(x) <= hi (0 <= lo <= hi <= 31)?
+ * With dx = qx-px > 0:   L(x)*dx = py*(qx-x) + qy*(x-px); the three cases keep every factor non-negative. */
+static int line_between(i64 px, i64 py, i64 qx, i64 qy, i64 x, i64 lo, i64 hi) {
+  unsigned dx = (unsigned) (qx - px);
+  if (x < px) {          /* L*dx = py*(qx-x) - qy*(px-x) */
+    unsigned a = OR_MUL(py, qx - x), b = OR_MUL(qy, px - x);
+    return a >= b + OR_MUL(lo, dx) && a <= b + OR_MUL(hi, dx);
+  } else if (x > qx) {   /* L*dx = qy*(x-px) - py*(x-qx) */
+    unsigned a = OR_MUL(qy, x - px), b = OR_MUL(py, x - qx);
+    return a >= b + OR_MUL(lo, dx) && a <= b + OR_MUL(hi, dx);
+  } else {               /* L*dx = py*(qx-x) + qy*(x-px) */
+    unsigned a = OR_MUL(py, qx - x) + OR_MUL(qy, x - px);
+    return a >= OR_MUL(lo, dx) && a <= OR_MUL(hi, dx);
+  }
+}
 static int line_in_band(i64 px, i64 py, i64 qx, i64 qy, i64 x, i64 y, i64 eps) {
-  i64 dx = qx - px, dy = qy - py;
-  if (dx < 0) { dx = -dx; dy = -dy; }
-  /* L(x)*dx = py*dx + (x-px)*dy */
-  i64 v = OR_ADD(OR_MUL(py, dx), OR_MUL(x - px, dy));
-  return v >= OR_MUL(band_lo(y, eps), dx) && v <= OR_MUL(band_hi(y, eps), dx);
+  return line_between(px, py, qx, qy, x, band_lo(y, eps), band_hi(y, eps));
 }
 /* is there ANY line within the bands of the m points (xs strictly increasing)?  A non-empty feasible set of (slope,
  * intercept) pairs is a bounded convex polygon when m >= 2, so one of its vertices - a line through two constraint
- * points with different x - is feasible.  Independent of the builder's hull logic. */
+ * points with different x - is feasible. */
 static int feasible(const i64 *xs, const i64 *ys, int m, i64 eps) {
   if (m <= 1) return 1;
   for (int a = 0; a < m; a++)
